@@ -43,7 +43,7 @@ def rule_magnitude(rep, pdb, entry_paths, key="magnitude"):
                     return True
                 if t[0] == "var":
                     from .common import _reaching_values
-                    vals = [_resolve(ctx, v) for v in _reaching_values(ctx, t)]
+                    vals = [_resolve(ctx, v) for v in _reaching_values(ctx, t, at=c)]
                     return bool(vals) and all(is_abs_term(v) or (v[0] == "call" and str(v[1]).endswith("Zero::zero")) or v == num(0) for v in vals)
                 return False
             ok = mag(L, c["l"]) and mag(R, c["r"])
